@@ -10,7 +10,7 @@ bool opt_fpic;
 
 static FileType opt_x;
 static StringArray opt_include;
-static bool opt_E;
+bool opt_E;
 static bool opt_M;
 static bool opt_MD;
 static bool opt_MMD;
